@@ -70,9 +70,10 @@ def escaping_sites():
     return _ESC['set']
 
 
-def run_harness(prog, fname, tables=None, max_unwind=400, params=None):
+def run_harness(prog, fname, tables=None, max_unwind=400, params=None, concrete=None):
     ex = Executor(prog, tables, max_unwind)
     ex.params = dict(params or {})
+    ex.concrete = concrete
     ex.escaping = escaping_sites()
     ex.run_inits()
     ex.harness = fname
